@@ -78,7 +78,10 @@ def name(dn):
         Choice(val, {
             "BmpString": [Tagged("TAG_BMPSTRING", "implicit", [Prim("OCTET STRING", P(dn, via=["BmpString::as_bytes"]))])],
             "Ia5String": [Prim("IA5String", P(dn))],
-            "PrintableString": [Prim("PrintableString", P(dn))],
+            # same bytes either way: the PrintableString writer, or the validated bytes under the PrintableString tag
+            "PrintableString": [{"t": "OneOf", "alts": [
+                [Tagged("TAG_PRINTABLESTRING", "implicit", [Prim("OCTET STRING", P(dn))])],
+                [Prim("PrintableString", P(dn))]]}],
             "TeletexString": [Tagged("TAG_TELETEXSTRING", "implicit", [Prim("OCTET STRING", P(dn, via=["TeletexString::as_bytes"]))])],
             "UniversalString": [Tagged("TAG_UNIVERSALSTRING", "implicit", [Prim("OCTET STRING", P(dn, via=["UniversalString::as_bytes"]))])],
             "Utf8String": [Prim("UTF8String", P(dn))],
